@@ -154,7 +154,7 @@ inductive Verdict where
 
 def replay (N Q : Nat) (es : List Event) : Verdict :=
   if es.isEmpty then .ok init 0 0 else
-  match search N Q (es.length + 1) init (ordered N Q init (candidates es [] [])) 0 0 0 (300000 + 100 * es.length) (0, init, es) with
+  match search N Q (es.length + 1) init (ordered N Q init (candidates es [] [])) 0 0 0 (20000 + 20 * es.length) (0, init, es) with
   | (some r, _, _) => .ok r.final r.steps r.skips
   | (none, b, (k, s, pending)) =>
     match hardFail N s pending with
